@@ -10,6 +10,7 @@ import Ymq.Model.FInt
 import Ymq.Model.Kronecker
 import Ymq.Model.Crt
 import Ymq.Model.PolyMul
+import Ymq.Model.PolySeries
 
 namespace Ymq.Drv
 open Ymq.PolySpec
@@ -165,18 +166,22 @@ def handlePolyFft : Handler
   | ["pf_mul_fft", n, _ringsize, p, q] => do
     let n ← parseNat n; let p ← parsePoly n p; let q ← parsePoly n q
     some (showArr (mul n p q))
-  | ["pf_longmul", n, _ringsize, p, q] => do
-    let n ← parseNat n; let p ← parsePoly n p; let q ← parsePoly n q
-    some (showArr (resize (mul n p q) (p.size + q.size)))
-  | ["pf_middlemul", n, _ringsize, p, q] => do
-    let n ← parseNat n; let p ← parsePoly n p; let q ← parsePoly n q
-    some (showArr (middle n p q))
-  | ["pf_div_mod_xn", n, _ringsize, p, q] => do
-    let n ← parseNat n; let p ← parsePoly n p; let q ← parsePoly n q
-    some (showOptArr (divSeries n p.size p q))
-  | ["pf_inv_mod_xn", n, _ringsize, p] => do
-    let n ← parseNat n; let p ← parsePoly n p
-    some (showOptArr (invSeries n p.size p))
+  | ["pf_longmul", n, ringsize, p, q] => do
+    let n ← parseNat n; let ringsize ← parseNat ringsize; let p ← parsePoly n p; let q ← parsePoly n q
+    some (showOptList (Ymq.PolyMul.longmul (Ymq.PolyMul.Ctx.new ringsize) (Ymq.PolyMul.natOps n)
+      (p.size + q.size) (6 * max p.size q.size + 6) p.toList q.toList))
+  | ["pf_middlemul", n, ringsize, p, q] => do
+    let n ← parseNat n; let ringsize ← parseNat ringsize; let p ← parsePoly n p; let q ← parsePoly n q
+    some (showOptList (Ymq.PolyMul.middlemulPub (Ymq.PolyMul.Ctx.new ringsize) (Ymq.PolyMul.natOps n)
+      p.toList q.toList))
+  | ["pf_div_mod_xn", n, ringsize, p, q] => do
+    let n ← parseNat n; let ringsize ← parseNat ringsize; let p ← parsePoly n p; let q ← parsePoly n q
+    some (showOptList (Ymq.PolyMul.divModXnPub (Ymq.PolyMul.Ctx.new ringsize) (Ymq.PolyMul.natOps n)
+      p.toList q.toList))
+  | ["pf_inv_mod_xn", n, ringsize, p] => do
+    let n ← parseNat n; let ringsize ← parseNat ringsize; let p ← parsePoly n p
+    some (showOptList (Ymq.PolyMul.invModXn (Ymq.PolyMul.Ctx.new ringsize) (Ymq.PolyMul.natOps n)
+      Ymq.PolyMul.FUEL p.toList (6 * p.size)))
   | ["mzp_new", n, logk] => do
     let n ← parseNat n; let logk ← parseNat logk
     some (match Ymq.Crt.new n logk with
